@@ -58,7 +58,7 @@ IPv6_PATTERN = re.compile(
     r"|([0-9a-f]{1,4}:){1,2}(:[0-9a-f]{1,4}){1,5}"
     r"|[0-9a-f]{1,4}:((:[0-9a-f]{1,4}){1,6})"
     r"|:((:[0-9a-f]{1,4}){1,7}|:)"
-    r"|fe80:(:[0-9a-f]{0,4}){0,4}%[0-9a-z]{1,}"
+    r"|fe80:(:[0-9a-f]{1,4}){1,4}%[0-9a-z]{1,}"
     + r"|::(ffff(:0{{1,4}})?:)?({octet}\.){{3}}{octet}"
     r"|([0-9a-f]{{1,4}}:){{1,4}}:({octet}\.){{3}}{octet})"
     r"(?={enclosing}|$)".format(enclosing=_IPv6_ENCLOSING, octet=_IPv4_OCTET_PATTERN),
